@@ -310,3 +310,48 @@ def check_C20(tier):
         r = next((x for x in keep if any(e["ev"] == "save" and not e["ok"] for e in x["events"])), keep[0])
         chk.sample({"kind": r["sc"]["kind"], "events": [{k: v for k, v in e.items() if k != "ranks"} for e in r["events"]][:12]})
     return chk.finish()
+
+
+def check_C17(tier):
+    import model as M
+    from drivers import ocf
+
+    chk = Check("C17", tier)
+    rng = random.Random(chk.seed)
+    infer.verify_theorems(chk, ["InclC", "CBound"], tier, rng)
+    scen = []
+    n = 140 if tier == "quick" else 1500
+    tries = 0
+    while len(scen) < n and tries < 20 * n:
+        tries += 1
+        atoms = rng.choice([2, 2, 3])
+        sig = infer.SIG[:atoms]
+        nconds = rng.choice([1, 1, 2, 3, 3]) if len(scen) % 5 else 1
+        c = infer.gen_case(rng, atoms, nconds, 4, {"strong"})
+        if not c:
+            continue
+        sc = {"kind": "c", "sig": sig, "base": [(x["B"], x["A"]) for x in c["base"]], "facts": [], "extended": None, "seed": rng.randrange(1 << 30)}
+        ops = [["all", 1]]
+        for (B, A) in sc["base"]:
+            ops.append(["accept", 1, (B, A)])       # the object accepts every conditional of its base
+        for q in c["qs"][:4]:
+            ops.append(["cop", 1, (q["B"], q["A"])])
+            ops.append(["accept", 1, (q["B"], q["A"])])
+        if len(scen) % 4 == 0:
+            ops.append(["front", 1, 60])
+        sc["ops"] = ops
+        scen.append(sc)
+    keep = ocf.run_lifecycles(chk, scen, "crep")
+    chk.cov["fronts_enumerated"] = sum(1 for r in keep for e in r["events"] if e["ev"] == "front")
+    chk.cov["single_conditional_bases"] = sum(1 for r in keep if len(r["sc"]["base"]) == 1)
+    chk.cov["bases_with_unfalsifiable_conditional"] = sum(1 for r in keep if any(2 not in v for v in r["env"]["base"]))
+    chk.cov["rule"] = (
+        "Strongly consistent bases over 2-3 atoms with 1-3 conditionals (every fifth a single conditional; unfalsifiable conditionals occur by sampling): init_random_min_c_rep must succeed; TLC checks that the "
+        "impacts are non-negative, form a c-representation and that no c-representation lies strictly below them (finite search), that compute_all_ranks equals the impact sums, that every base conditional and "
+        "every query c-inference answers True (satisfiable antecedent) is accepted; for every fourth base c_inference_pareto_front runs in a subprocess with a 60 s limit and TLC checks the returned vectors are "
+        "pairwise different Pareto-minimal c-representations and contain every Pareto-minimal one with impacts <= max(2^(n-1), largest returned)+1. Non-trivial = life cycle with lazy operations."
+    )
+    chk.assumptions += ["completeness of the Pareto front is checked up to the stated impact bound only"]
+    if keep:
+        chk.sample({"base": [M.render_cond(*c) for c in keep[0]["sc"]["base"]], "events": [{k: v for k, v in e.items() if k != "ranks"} for e in keep[0]["events"]][:8]})
+    return chk.finish()
